@@ -818,3 +818,107 @@ def r_serializer_idle(ctx):
                       'after `%s` serialize() can return with self.%s still %r: checkSerializing() never reports this dump (the journal is never trimmed) and the next '
                       'compaction attempt starts another dump next to the running one' % (unparse(bad_start.ast)[:50], marker, idle), instance=inst)
     ctx.expect_min(6, 'returns of checkSerializing')
+
+
+@rule('R-consumer-payload', 'with consumers the state component of a snapshot is the list [own state, consumer 1 state, ...] in '
+                            'consumer order, and the loader reads it back the same way (own state = element 0, consumer i = element i + 1)')
+def r_consumer_payload(ctx):
+    P, R = ctx.P, ctx.R
+    comp, call = compaction_func(ctx)
+    loader = loader_func(ctx)
+    # the consumers attribute: the one both functions iterate calling _serialize / _deserialize
+    cons = None
+    for f in (comp, loader):
+        for n in U.walk_no_nested(f.node):
+            if isinstance(n, ast.For):
+                for x in ast.walk(n.iter):
+                    a = P.self_attr(x, f.self_name)
+                    if a and any(isinstance(c, ast.Call) and isinstance(c.func, ast.Attribute) and c.func.attr in ('_serialize', '_deserialize') for c in ast.walk(n)):
+                        cons = a
+    ctx.require(cons, 'no loop over the consumers calling _serialize / _deserialize')
+    # ---- writer
+    inst = 'writer: state component is [own state] + [c._serialize() for c in consumers]'
+    ctx.tick()
+    wloops = [n for n in U.walk_no_nested(comp.node) if isinstance(n, ast.For) and P.self_attr(n.iter, comp.self_name) == cons]
+    okw = False
+    why = 'no loop over self.%s in the compaction function' % cons
+    for lp in wloops:
+        apps = [c for c in ast.walk(lp) if isinstance(c, ast.Call) and isinstance(c.func, ast.Attribute) and c.func.attr == 'append' and isinstance(c.func.value, ast.Name)
+                and c.args and isinstance(c.args[0], ast.Call) and isinstance(c.args[0].func, ast.Attribute) and c.args[0].func.attr == '_serialize'
+                and isinstance(c.args[0].func.value, ast.Name) and isinstance(lp.target, ast.Name) and c.args[0].func.value.id == lp.target.id]
+        if not apps:
+            why = 'the consumer loop does not append `consumer._serialize()` to a list'
+            continue
+        lst = apps[0].func.value.id
+        # every definition of that list variable that reaches the loop is a one-element list display
+        cfg = U.explorer(ctx, comp).cfg
+        res = U.full_run(ctx, comp)
+        head = [n for n in cfg.nodes if n.ast is lp and n.kind == 'iter']
+        defs = [d for d in U.walk_no_nested(comp.node) if isinstance(d, ast.Assign) and any(isinstance(t, ast.Name) and t.id == lst for t in d.targets)]
+        displays = [d for d in defs if isinstance(d.value, ast.List) and len(d.value.elts) == 1]
+        if not displays:
+            why = '`%s` is appended to, but it is never initialised as the one-element list [own state]' % lst
+            continue
+        dn = [U.node_containing(cfg, d).id for d in displays]
+        if head and head[0].id in cfg.reachable_from(cfg.entry.id, avoid=dn, follow_exc=False):
+            # reachable without the display: only acceptable when the consumers are known to be absent there (loop does nothing)
+            r2 = U.explorer(ctx, comp).run(avoid=dn, follow_exc=False)
+            neg = U.explorer(ctx, comp).tb.literal(U.parse_expr('self.%s' % cons), False)
+            if not all(neg in fs for fs in r2.facts_at(head[0].id)):
+                why = 'the consumer loop is reached on a path where `%s` was not set to [own state] although consumers may exist' % lst
+                continue
+        okw = True
+        wl = (lp, lst, displays[0])
+    if not okw:
+        # comprehension form: X = [own] + [c._serialize() for c in consumers]
+        for d in U.walk_no_nested(comp.node):
+            if isinstance(d, ast.Assign) and isinstance(d.value, ast.BinOp) and isinstance(d.value.op, ast.Add) and isinstance(d.value.left, ast.List) and len(d.value.left.elts) == 1 \
+                    and isinstance(d.value.right, (ast.ListComp,)) and len(d.value.right.generators) == 1 and P.self_attr(d.value.right.generators[0].iter, comp.self_name) == cons \
+                    and isinstance(d.value.right.elt, ast.Call) and isinstance(d.value.right.elt.func, ast.Attribute) and d.value.right.elt.func.attr == '_serialize':
+                okw = True
+                wl = (d, unparse(d.targets[0]), ast.Assign(targets=d.targets, value=d.value.left, lineno=d.lineno))
+    if okw:
+        ctx.ok(inst, comp.loc(wl[2]), '`%s = %s` then `%s.append(consumer._serialize())` for every consumer' % (wl[1], unparse(wl[2].value), wl[1]))
+    else:
+        ctx.violation('%s:consumer-states-not-collected' % comp.qualname, comp.loc(wloops[0] if wloops else None), why + ': a snapshot of an object with consumers cannot be written '
+                      '(the compaction raises) or loses the consumers\' state', instance=inst)
+    # ---- loader
+    inst = 'loader: own state = element 0, consumer i = element i + 1'
+    ctx.tick()
+    rl = [n for n in U.walk_no_nested(loader.node) if isinstance(n, ast.For) and any(P.self_attr(x, loader.self_name) == cons for x in ast.walk(n.iter))
+          and any(isinstance(c, ast.Call) and isinstance(c.func, ast.Attribute) and c.func.attr == '_deserialize' for c in ast.walk(n))]
+    okl = False
+    whyl = 'no loop over the consumers calling _deserialize'
+    if rl:
+        lp = rl[0]
+        dc = [c for c in ast.walk(lp) if isinstance(c, ast.Call) and isinstance(c.func, ast.Attribute) and c.func.attr == '_deserialize'][0]
+        arg = dc.args[0] if dc.args else None
+        # consumersData[i] with consumersData = <state>[1:]  and i the enumerate index
+        if isinstance(arg, ast.Subscript) and isinstance(arg.value, ast.Name) and isinstance(arg.slice, ast.Name):
+            src = [d.value for d in U.walk_no_nested(loader.node) if isinstance(d, ast.Assign) and any(isinstance(t, ast.Name) and t.id == arg.value.id for t in d.targets)]
+            slices = [v for v in src if isinstance(v, ast.Subscript) and isinstance(v.slice, ast.Slice) and isinstance(v.slice.lower, ast.Constant) and v.slice.lower.value == 1 and v.slice.upper is None]
+            enum_ok = isinstance(lp.iter, ast.Call) and isinstance(lp.iter.func, ast.Name) and lp.iter.func.id == 'enumerate' and isinstance(lp.target, ast.Tuple) \
+                and isinstance(lp.target.elts[0], ast.Name) and lp.target.elts[0].id == arg.slice.id
+            own = [d for d in U.walk_no_nested(loader.node) if isinstance(d, ast.Assign) and isinstance(d.value, ast.Subscript) and isinstance(d.value.slice, ast.Constant)
+                   and d.value.slice.value == 0 and slices and unparse(d.value.value) == unparse(slices[0].value)]
+            if slices and enum_ok and own:
+                okl = True
+            else:
+                whyl = 'the consumers are not restored from elements 1.. of the state component by their position (%s)' % (
+                    'no `[1:]` slice' if not slices else ('index is not the enumerate() position' if not enum_ok else 'own state is not element 0'))
+        elif isinstance(arg, ast.Name) and isinstance(lp.iter, ast.Call) and isinstance(lp.iter.func, ast.Name) and lp.iter.func.id in ('zip', 'izip') and len(lp.iter.args) == 2 \
+                and isinstance(lp.target, ast.Tuple) and len(lp.target.elts) == 2 and isinstance(lp.target.elts[1], ast.Name) and lp.target.elts[1].id == arg.id:
+            # for consumer, state in zip(consumers, <state>[1:])
+            second = U.deref1(P, loader, lp.iter.args[1])
+            if isinstance(second, ast.Subscript) and isinstance(second.slice, ast.Slice) and isinstance(second.slice.lower, ast.Constant) and second.slice.lower.value == 1 \
+                    and second.slice.upper is None and P.self_attr(lp.iter.args[0], loader.self_name) == cons:
+                okl = True
+            else:
+                whyl = 'zip() does not pair the consumers with elements 1.. of the state component'
+        else:
+            whyl = '`%s` is not `<consumer states>[i]`' % (unparse(arg) if arg is not None else '?')
+    if okl:
+        ctx.ok(inst, loader.loc(rl[0]), unparse(dc))
+    else:
+        ctx.violation('%s:consumer-states-not-restored-by-position' % loader.qualname, loader.loc(rl[0] if rl else None), whyl, instance=inst)
+    ctx.expect_min(2)
